@@ -157,11 +157,12 @@ func init() {
 			{Engine: "A", Scenario: "member", Quick: 30, Thorough: 400},
 			{Engine: "A", Scenario: "everything", Quick: 8, Thorough: 100},
 			{Engine: "A", Scenario: "uncommitted-config", Params: "seg=1024", Quick: 6, Thorough: 60},
+			{Engine: "A", Scenario: "uncommitted-config", Params: "seg=1024,variant=3", Quick: 10, Thorough: 100},
 		},
 		Rule:       "seeded live-cluster runs submitting random legal and illegal ChangeConfig requests (add non-voter +/- promote, promote, demote, remove, force-remove, several actions at once, direct flips and drops) with leader isolation / transfer / crash while actions are pending; non-trivial if at least 4 configuration entries were chained to a predecessor; distinct = distinct abstract trace",
 		Nontrivial: all(ge("config-chain-links", 4)),
 		MinQuick:   20, MinThorough: 200,
-		Counters:     []string{"config-entries", "config-chain-links", "config-changes", "config-commits", "leaders-elected", "truncations", "crashes", "transfers-succeeded"},
+		Counters:     []string{"config-entries", "config-chain-links", "voter-changes-traced-to-a-request", "config-adoptions-compared", "config-changes", "config-commits", "leaders-elected", "truncations", "crashes", "transfers-succeeded"},
 		Prefixes:     []string{"config-actions:", "admin:changeconfig:"},
 		SampleTopics: []string{"config-chain"},
 		Assumptions:  stdAssumptions,
